@@ -332,6 +332,12 @@ def respell_ebuild(s, rng):
     r = rng.random()
     if r < 0.3 and "-r" not in s:
         return s + "-r0"
+    if r < 0.12 and "-r" in s:
+        # is_valid lets anything follow the revision and vercmp ignores it
+        return s + rng.choice(["x", "_p1", ".1", "abc"])
+    if 0.3 <= r < 0.36 and s[:1] != "0":
+        # zero-led first component: the code applies the string rule to it too (PMS: integer)
+        return "0" + s
     if r < 0.5:
         return s.replace("_p", "_p0", 1) if "_p" in s and not s.endswith("0") else s + "_p0" if "-r" not in s else s
     if r < 0.8:
